@@ -113,11 +113,11 @@ impl Property for C06 {
         "C06"
     }
     fn rule(&self) -> &'static str {
-        "case = valid instance x 1..8 (sample id, in-bound state) pairs (arbitrary u64 ids, equal states shared or in separate entries or via add_sample, states built to collide in objective/constraint values, states omitting irrelevant variables) x grouping; \
+        "case = valid instance x 1..8 (sample id, in-bound state) pairs (arbitrary u64 ids, equal states shared or in separate entries or via add_sample, states built to collide in objective/constraint values, states omitting irrelevant variables, states still carrying a stale value for a fixed variable) x grouping; \
          oracle = Instance::evaluate of each state alone (tied to the reference model by C05) + key-set and re-grouping invariance; non-trivial = >=2 ids and (shared entry or duplicate state across entries or equal values from different states); distinct = sha256(instance, pairs, grouping)"
     }
     fn required_labels(&self) -> Vec<String> {
-        ["multi-id-entry", "dup-state-separate-entries", "value-collision", "omits-irrelevant", "omits-different-subsets", "add_sample", "n>=4", "dependency", "removed-constraint", "fixed-variable"].iter().map(|s| s.to_string()).collect()
+        ["multi-id-entry", "dup-state-separate-entries", "value-collision", "omits-irrelevant", "omits-different-subsets", "add_sample", "n>=4", "dependency", "removed-constraint", "fixed-variable", "state-has-stale-value-of-fixed-variable"].iter().map(|s| s.to_string()).collect()
     }
     fn cases(&self, tier: Tier) -> usize {
         match tier {
@@ -140,6 +140,8 @@ impl Property for C06 {
         let collide = t.p(100);
         // which irrelevant variables each state assigns (different subsets per state)
         let masks: Vec<u16> = (0..8).map(|_| t.u16()).collect();
+        // which states still carry an (in-bound, stale) value for a variable that an earlier partial evaluation fixed
+        let stale_mask = if t.p(96) { t.byte() } else { 0 };
         let mut cfg = InstCfg::new(regime);
         cfg.tolerance_candidates = true;
         let mut gi = gen_instance(t, &cfg, ctx);
@@ -162,6 +164,17 @@ impl Property for C06 {
                     gen_inst_state(t, &gi, regime, true)
                 }
             };
+            let mut st = st;
+            if (stale_mask >> i) & 1 == 1 {
+                for fx in gi.fixed.clone() {
+                    let v = gi.inst.decision_variables.iter().find(|v| v.id == fx).unwrap();
+                    let x = in_bound_value(t, v, regime);
+                    if v.substituted_value != Some(x) {
+                        ctx.label("state-has-stale-value-of-fixed-variable");
+                    }
+                    st.entries.insert(fx, x);
+                }
+            }
             pairs.push((ids[i], st));
         }
         if omit_irrelevant && !gi.irrelevant.is_empty() {
